@@ -18,6 +18,16 @@ CVH = os.path.join(HT, "debug", "cvh")
 MODELRUN = os.path.join(ML, "modelrun")
 NPROC = os.cpu_count() or 4
 
+
+def _cleanup_private_dirs():
+    import shutil
+    for sub in ("run", "assum"):
+        shutil.rmtree(os.path.join(BUILD, sub, str(os.getpid())), ignore_errors=True)
+
+
+import atexit  # noqa: E402
+atexit.register(_cleanup_private_dirs)
+
 FORBIDDEN = re.compile(
     r"\b(Admitted|admit|Axiom|Axioms|Parameter|Parameters|Conjecture|Conjectures|"
     r"Admit Obligations|Unset Guard Checking|Unset Positivity Checking|"
@@ -59,15 +69,34 @@ def coq_makefile():
 
 
 def regen_pins():
-    rc, out, _ = sh([sys.executable, os.path.join(VERIF, "tools", "pins.py"), os.path.join(COQ, "Pins.v")])
+    with build_lock():
+        rc, out, _ = sh([sys.executable, os.path.join(VERIF, "tools", "pins.py"), os.path.join(COQ, "Pins.v")])
     if rc != 0:
         raise RuntimeError("pins.py failed: " + out)
 
 
+class build_lock:
+    """checks may run concurrently: builds that write into shared directories (coq/*.vo, .build/ml, the cargo target)
+    are serialised by an advisory file lock; the differential runs use per-process directories"""
+
+    def __enter__(self):
+        import fcntl
+        os.makedirs(BUILD, exist_ok=True)
+        self.f = open(os.path.join(BUILD, "build.lock"), "w")
+        fcntl.flock(self.f, fcntl.LOCK_EX)
+        return self
+
+    def __exit__(self, *a):
+        import fcntl
+        fcntl.flock(self.f, fcntl.LOCK_UN)
+        self.f.close()
+
+
 def coq_build(targets, timeout=1800):
     """make the given .vo targets (and their cones). Returns (ok, log, failing_file)"""
-    coq_makefile()
-    rc, out, dt = sh(["make", "-j%d" % NPROC] + targets, cwd=COQ, timeout=timeout)
+    with build_lock():
+        coq_makefile()
+        rc, out, dt = sh(["make", "-j%d" % NPROC] + targets, cwd=COQ, timeout=timeout)
     failing = None
     m = re.search(r'File "\./([^"]+)", line (\d+)', out)
     if m:
@@ -154,7 +183,7 @@ def print_assumptions(vfile):
     the compiled .vo; returns {theorem: text}"""
     mod = "CV." + vfile[:-2].replace("/", ".")
     thms = theorems_of(vfile)
-    d = os.path.join(BUILD, "assum")
+    d = os.path.join(BUILD, "assum", str(os.getpid()))
     os.makedirs(d, exist_ok=True)
     name = "Assum_" + re.sub(r"\W", "_", vfile[:-2])
     path = os.path.join(d, name + ".v")
@@ -162,7 +191,8 @@ def print_assumptions(vfile):
         f.write("Require Import %s.\n" % mod)
         for t in thms:
             f.write('Goal True. idtac "@@%s". Abort.\nPrint Assumptions %s.\n' % (t, t))
-    rc, out, _ = sh(["coqc", "-Q", COQ, "CV", "-w", "-notation-overridden", path], cwd=d, timeout=600)
+    with build_lock():
+        rc, out, _ = sh(["coqc", "-Q", COQ, "CV", "-w", "-notation-overridden", path], cwd=d, timeout=600)
     res = {}
     if rc != 0:
         return None, out
@@ -192,6 +222,11 @@ def assumptions_ok(assum):
 
 # ------------------------------------------------------- executable sides
 def build_ml():
+    with build_lock():
+        return _build_ml()
+
+
+def _build_ml():
     os.makedirs(ML, exist_ok=True)
     srcs = [os.path.join(VERIF, "extracted", f) for f in ("model.mli", "model.ml", "modelrun.ml")]
     for s in srcs:
@@ -212,6 +247,11 @@ def build_ml():
 
 
 def build_harness():
+    with build_lock():
+        return _build_harness()
+
+
+def _build_harness():
     lock_src = os.path.join(REPO, "Cargo.lock")
     lock_dst = os.path.join(VERIF, "harness", "Cargo.lock")
     if os.path.exists(lock_src) and not os.path.exists(lock_dst):
@@ -229,7 +269,7 @@ def _run_sharded(binary, mode, case_lines, extra_files=None, timeout=3600, tag="
         return []
     k = min(NPROC, max(1, n // 2000))
     size = (n + k - 1) // k
-    d = os.path.join(BUILD, "run")
+    d = os.path.join(BUILD, "run", str(os.getpid()))
     os.makedirs(d, exist_ok=True)
     procs = []
     for i in range(k):
